@@ -134,7 +134,7 @@ Proof. exact stream_ok_sound. Qed.
 Print Assumptions c02_checker_sound.
 
 (** ** Non-vacuity *)
-Definition ex_cfgs : list rcfg := [ {| rk := RPeriodic; r_delta := true |}; {| rk := RManual; r_delta := false |} ].
+Definition ex_cfgs : list rcfg := [ {| rk := RPeriodic; r_delta := true; r_cb := true |}; {| rk := RManual; r_delta := false; r_cb := true |} ].
 (** three threads (7, 8, 9) adding while reader 0 collects in the middle of thread 7's fan-out *)
 Definition ex_sched : list action :=
   [ AStart 7 0 1%N 5; ADeliver 7; CStart 0; AStart 8 0 1%N 2; ADeliver 8; CStep 0; CFinish 0;
@@ -155,9 +155,9 @@ Proof. repeat constructor; lia. Qed.
 Definition ex_h : list op :=
   [Add 0%nat 1%N 5; Add 0%nat 2%N 1; Flush 0%nat; Add 0%nat 1%N 3; CollectR 1%nat; Shutdown 0%nat; Add 0%nat 1%N 9; Flush 0%nat].
 Example ex_seq :
-  stream (nth 0%nat ex_cfgs (Build_rcfg RManual false)) 0%nat 0%nat ex_h = [[(1%N, [5]); (2%N, [1])]; [(1%N, [3])]] /\
-  stream (nth 1%nat ex_cfgs (Build_rcfg RManual false)) 1%nat 0%nat ex_h = [[(1%N, [8]); (2%N, [1])]] /\
-  no_err ex_h = true /\ stream_codes (nth 0%nat ex_cfgs (Build_rcfg RManual false)) 0%nat ex_h = [0; 0; 1]%N.
+  stream (nth 0%nat ex_cfgs (Build_rcfg RManual false true)) 0%nat 0%nat ex_h = [[(1%N, [5]); (2%N, [1])]; [(1%N, [3])]] /\
+  stream (nth 1%nat ex_cfgs (Build_rcfg RManual false true)) 1%nat 0%nat ex_h = [[(1%N, [8]); (2%N, [1])]] /\
+  no_err ex_h = true /\ stream_codes (nth 0%nat ex_cfgs (Build_rcfg RManual false true)) 0%nat ex_h = [0; 0; 1]%N.
 Proof. vm_compute. repeat split; reflexivity. Qed.
 Example ex_nonneg : nonneg ex_h.
 Proof. intros i k v H. cbn in H. repeat (destruct H as [H|H]; [inversion H; subst; lia|]). contradiction. Qed.
